@@ -778,6 +778,15 @@ impl<Writer: Write> Mp4Writer<Writer> {
                 "MP4 MDAT box size exceeds u32::MAX",
             ));
         }
+        // One chunk per sample, walked below with a 32-bit cursor that starts
+        // behind ftyp and the mdat header: the mdat must also END within 4 GiB,
+        // or the cursor (and with it the stco entries) would wrap.
+        if ftyp_len as u64 + mdat_size > u32::MAX as u64 {
+            return Err(io::Error::new(
+                io::ErrorKind::InvalidData,
+                "MP4 chunk offset exceeds u32::MAX",
+            ));
+        }
         Self::write_counted(
             &mut self.writer,
             &mut self.bytes_written,
